@@ -66,6 +66,20 @@ func optionsAppliedAsGiven(c *core.Ctx) {
 				_, stored = astx.ObjOf(info, x).(*types.Var)
 			case *ast.SelectorExpr:
 				stored = astx.FieldOf(info, x) != nil
+			case *ast.CallExpr:
+				// the list a caller-supplied function returns (`o.conditional(spec)`, the function being a
+				// field or parameter): still the caller's own options, in the caller's own order
+				fun := astx.Unparen(x.Fun)
+				if _, isSig := info.TypeOf(fun).Underlying().(*types.Signature); isSig {
+					if sel, isSel := fun.(*ast.SelectorExpr); isSel && astx.FieldOf(info, sel) != nil {
+						stored = true
+					}
+					if id, isID := fun.(*ast.Ident); isID {
+						if v, isVar := astx.ObjOf(info, id).(*types.Var); isVar && !v.IsField() {
+							stored = true
+						}
+					}
+				}
 			}
 			c.Check(stored, fmt.Sprintf("apply-source/%s#%d", name, loops), l.Pos(), "%s applies the options of %s (a parameter or field: %v)", name, types.ExprString(slice), stored)
 		}
